@@ -61,6 +61,9 @@ def cases(tier):
         for tot in (None, (50.0, 400.0)):
             for spends in ([100.0, 50.0, 30.0], [0.0, 0.0, 0.0], [90.0, 90.0, 0.0]):
                 yield dict(kind="package", minp=minp, maxp=maxp, tot=tot, spends=spends)
+    for tot in (None, (50.0, 400.0)):
+        for spends in ([100.0, 50.0, 30.0], [90.0, 90.0, 0.0], [7.0, 1.0, 2.0]):
+            yield dict(kind="package", minp=None, maxp=None, tot=tot, spends=spends, fix_props=True)
 
 
 def check_vector(v, x, s, lb, ub, label):
@@ -266,6 +269,10 @@ def run_tsc(case):
                     got += val
             if mix == "plain":
                 tot = sum(init[p] * yfac[t] for p in names) * case["bf"]  # required total recomputed from the spec
+            elif mix.startswith("package"):
+                # the package (first two programs) is adjusted in the first year only; required total recomputed from the spec, never from the library's table
+                members = names if t == yrs[0] else names[2:]
+                tot = sum(init[p] * yfac[t] for p in members) * case["bf"]
             if abs(got - tot) > 1e-6 * max(1.0, tot):
                 vs.append(V("total-spend-violated", f"{lab} proposal={list(prop)}: spending in {t} sums to {got!r}, required {tot!r}", None))
         if mix.startswith("package"):
@@ -291,7 +298,7 @@ def run_package(case):
         kw = dict(min_total_spend=case["tot"][0], max_total_spend=case["tot"][1])
     counters = {}
     try:
-        adj = at.optimization.SpendingPackageAdjustment("pkg", 2020.0, names, spends, min_props=case["minp"], max_props=case["maxp"], **kw)
+        adj = at.optimization.SpendingPackageAdjustment("pkg", 2020.0, names, spends.copy(), min_props=case["minp"], max_props=case["maxp"], fix_props=bool(case.get("fix_props")), **kw)
     except AssertionError:
         return dict(states=0, transitions=0, nontrivial=False, violations=[], counters=dict(package_rejected_at_construction=1))
     minp = np.array(case["minp"] or [0, 0, 0], dtype=float)
@@ -314,6 +321,9 @@ def run_package(case):
                 counters["signalled"] = counters.get("signalled", 0) + 1
                 continue
             nret += 1
+            if not np.array_equal(adj.initial_spends, spends):
+                vs.append(V("package-initial-spends-modified", f"{case} values={vals}: applying the adjustment changed its stored initial spending {adj.initial_spends.tolist()} (was {spends.tolist()})", None))
+                break
             got = np.array([float(ins.alloc[p].get(2020.0)) for p in names])
             T = got.sum()
             exp_T = tot if tot is not None else spends.sum()
@@ -321,6 +331,8 @@ def run_package(case):
                 vs.append(V("package-nonfinite", f"{case} values={vals}: spending {got.tolist()}", None))
             elif abs(T - exp_T) > 1e-6 * max(1.0, exp_T):
                 vs.append(V("package-total-violated", f"{case} values={vals}: package total {T!r}, expected {exp_T!r}", None))
+            elif case.get("fix_props") and T > 0 and spends.sum() > 0 and not np.allclose(got / T, spends / spends.sum(), rtol=1e-9, atol=1e-12):
+                vs.append(V("package-fixed-proportions-changed", f"{case} values={vals}: shares {(got / T).tolist()} differ from the initial proportions {(spends / spends.sum()).tolist()}", None))
             elif T > 0:
                 sh = got / T
                 if np.any(sh < minp - 1e-6) or np.any(sh > maxp + 1e-6):
